@@ -310,6 +310,25 @@ func init() {
 		}
 		return rv(m)
 	}})
+	// HSCAN key cursor [MATCH pattern] [COUNT n]: the whole hash in one page (cursor 0 -> "0"); MATCH is not modelled
+	reg("HSCAN", &cmdSpec{arity: -3, first: 1, last: 1, readonly: true, fn: func(w *World, sc *SrvConn, e *Exec, a []string) result {
+		en := sc.Node.DBs.get(sc, a[1])
+		if en != nil && en.typ != "hash" {
+			return rv(errWrongType())
+		}
+		for i := 3; i < len(a); i += 2 {
+			if strings.ToUpper(a[i]) != "COUNT" {
+				w.gap("HSCAN option %q not modelled", a[i])
+			}
+		}
+		page := resp.Value{T: '*'}
+		if en != nil {
+			for _, f := range en.hkeys {
+				page.A = append(page.A, resp.Bulk(f), resp.Bulk(en.hash[f]))
+			}
+		}
+		return rv(resp.Value{T: '*', A: []resp.Value{resp.Bulk("0"), page}})
+	}})
 	reg("HDEL", &cmdSpec{arity: -3, first: 1, last: 1, write: true, fn: func(w *World, sc *SrvConn, e *Exec, a []string) result {
 		en := sc.Node.DBs.get(sc, a[1])
 		if en == nil {
